@@ -41,6 +41,9 @@ Repls == { << <<1, r>> >> : r \in ReplFns } \cup { << <<2, r>> >> : r \in ReplFn
          \cup { << <<1, r1>>, <<2, r2>> >> : r1 \in ReplFns, r2 \in ReplFns } \cup { <<>> }
 NextSubst == \E f \in Msgs, r \in Repls : vec' = [ev |-> "subst_fn", in |-> [f |-> f, repl |-> r]]
 \* ---- arithmetic operands per kind (un-normalised variants; quadratic without duplicated positions) ----
+\* both triangles of one id pair in one message (no duplicated position): x1*x2 listed as (1,2) and (2,1)
+SymQuads == { [kind |-> "quadratic", rows |-> <<1, 2>>, columns |-> <<2, 1>>, values |-> <<R(1), R(2)>>, linear |-> <<>>],
+              [kind |-> "quadratic", rows |-> <<2, 1, 1>>, columns |-> <<1, 2, 1>>, values |-> <<R(-1), <<1,2>>, R(2)>>, linear |-> << L(<< T(1, R(-1)) >>, <<1,2>>) >>] }
 QuadNoDup(q) == \A i, j \in DOMAIN q.rows : i # j => <<q.rows[i], q.columns[i]>> # <<q.rows[j], q.columns[j]>>
 Operand(k) ==
   CASE k = "num"   -> { [k |-> "num", c |-> c, id |-> 0, f |-> [kind |-> "none"]] : c \in {R(0), R(2), <<-1,2>>} }
@@ -49,11 +52,12 @@ Operand(k) ==
     [] k = "lin"   -> { [k |-> "lin", c |-> Zero, id |-> 0, f |-> f] : f \in Lins(2) }
     [] k = "quad"  -> { [k |-> "quad", c |-> Zero, id |-> 0, f |-> f] : f \in { q \in WQuads(2, 1) : QuadNoDup(q) } }
     [] k = "poly"  -> { [k |-> "poly", c |-> Zero, id |-> 0, f |-> f] : f \in Polys(2, 2) }
-    [] k = "func"  -> { [k |-> "func", c |-> Zero, id |-> 0, f |-> f] : f \in SetMsgs }
+    [] k = "func"  -> { [k |-> "func", c |-> Zero, id |-> 0, f |-> f] : f \in SetMsgs \cup SymQuads }
 \* a thinner operand family for the full kind x kind product
 ThinLinParts == { <<>>, << L(<< T(1, R(2)) >>, R(-1)) >>, << L(<<>>, R(0)) >> }
 Thin(k) == IF k \in {"lin", "poly"} THEN { o \in Operand(k) : Len(o.f.terms) <= 1 }
            ELSE IF k = "quad" THEN { o \in Operand(k) : Len(o.f.values) <= 1 /\ o.f.linear \in ThinLinParts }
+                                   \cup { [k |-> "quad", c |-> Zero, id |-> 0, f |-> q] : q \in SymQuads }
            ELSE IF k = "func" THEN { o \in Operand(k) : o.f.kind = "quadratic" => QuadNoDup(o.f) }
            ELSE Operand(k)
 DummyB == [k |-> "num", c |-> Zero, id |-> 0, f |-> [kind |-> "none"]]
